@@ -178,7 +178,19 @@ impl<SystemType : System> SysCache<SystemType>
             {
                 match system.rename(&cache_path, &target_path)
                 {
-                    Err(error) => RestoreResult::SystemError(error),
+                    Err(error) =>
+                    {
+                        /*  Another rule with an identical target may have taken the
+                            file between the check above and the rename. */
+                        if system.is_file(&cache_path)
+                        {
+                            RestoreResult::SystemError(error)
+                        }
+                        else
+                        {
+                            RestoreResult::NotThere
+                        }
+                    },
                     Ok(()) => RestoreResult::Done
                 }
             }
